@@ -28,7 +28,14 @@ RULE = (
     '{0, 1e-9, 1e-3, 0.7, pi/2, 2.5, pi-1e-6, pi-1e-9, pi} x wavelengths {0.01, 1.8, 100} angstrom; hkl cases: full product of '
     'R (24 cube rotations + 3 generic + 1 tiny) x representation of R x U x B (cubic, orthorhombic, hexagonal, triclinic, cond 1e6), '
     'inside 12 Q vectors; a configuration is non-trivial when Q != 0 (beams not exactly parallel) resp. when R*UB is not diagonal; '
-    'distinct = distinct (case, angle, wavelength) resp. (case, Q) tuples'
+    'distinct = distinct (case, angle, wavelength) resp. (case, Q) tuples. '
+    'Thorough tier ("deep" cases): qvec = full product of 26 b1 directions x |b1|, |b2| in {1e-6, 1e-3, 1, 41.1, 1e3, 1e6}^2 restricted to '
+    'the 28 pairs whose ratio is at most 1e6; inside 14 angles (0, pi and both within 1e-12, 1e-9, 1e-6, 1e-3 of them) x 6 '
+    'wavelengths (every decade 0.01..100 angstrom and 1.8) in angstrom / nm / m, plus int64 wavelengths, per-pixel incident beams, both '
+    'beams as arrays (same dim and outer product); qint = every ordered pair of 13 integer-valued beams x int64 and float wavelengths; '
+    'hkl = full product of 34 R (24 cube + 8 generic incl. nearly pi + 2 tiny) x 2 representations x 34 U x 32 B (7 lattice systems x 3 '
+    'sizes, cond 1e6 in 5 positions, det 1e-9 / 1e6), plus the families "B in 1/nm" and "ub_matrix handed over directly" over 6 U, inside '
+    '40 Q vectors (|Q| 1e-12..1e6) and arrays of R, U, Q (element-wise and outer product).'
 )
 ASSUMPTIONS = [
     'Q components are judged with an absolute tolerance 16 eps * 2pi/lambda (errors of the two unit vectors do not shrink when '
@@ -38,8 +45,11 @@ ASSUMPTIONS = [
     'UB = U*B judged entrywise with 4 eps sum_k |U_ik||B_kj|',
 ]
 BOUND = {
-    'quick': 'qvec: 6 directions x 3x3 lengths x {angstrom, nm alternating}; hkl: 28 R x 6 U x 5 B, R as quaternion (cube/generic) ',
-    'thorough': 'qvec: 18 directions x 3x3 lengths x 2 units x 2 perpendiculars; hkl: 28 R x 2 representations x 28 U x 5 B',
+    'quick': 'qvec: 6 directions x 3x3 lengths x {angstrom, nm alternating}; hkl: 28 R x 6 U x 7 B, R as quaternion (cube/generic) ',
+    'thorough': 'qvec: 26 directions x 28 length pairs (ratio <= 1e6) from {1e-6, 1e-3, 1, 41.1, 1e3, 1e6} x {angstrom, nm, m} x 2 perpendiculars, inside '
+                '14 angles x 6 wavelengths (+ int64 wavelengths, per-pixel incident beam, both beams arrays); qint: 13 integer beams x 13 x 9 '
+                'wavelengths; hkl: 34 R x 2 representations x 34 U x 32 B in 1/angstrom + (34 R x 2 x 6 U x 32 B) in 1/nm + the same with '
+                'ub_matrix given directly (units alternating), 40 Q vectors each, arrays of 5 R / 5 U / Q (element-wise and outer)',
 }
 REQUIRED_CLASSES = [
     'q_zero', 'q_tiny', 'q_backscatter', 'q_generic', 'unit_angstrom', 'unit_nm', 'scalar_call', 'wavelength_array', 'beam_array',
@@ -54,11 +64,23 @@ SITE_UB = 'conversion.tof.ub_matrix_from_u_and_b'
 SITE_HE = 'conversion.tof.hkl_elements_from_hkl_vec'
 
 LENGTHS = (1.0, 1e-3, 1e3)
-ANGLES = (0.0, 1e-9, 1e-3, 0.7, math.pi / 2, 2.5, math.pi - 1e-6, math.pi - 1e-9, math.pi)
+ANGLES_QUICK = (0.0, 1e-9, 1e-3, 0.7, math.pi / 2, 2.5, math.pi - 1e-6, math.pi - 1e-9, math.pi)
+ANGLES = ANGLES_QUICK
 LAMBDAS_A = (1.8, 0.01, 100.0)
 SCALES = (2.0, 2.0**-20, 2.0**20, 3.0, 0.1, 1e3)
 N_POW2 = 3
 EPS = gc.EPS
+
+# deep (thorough) alphabets -------------------------------------------------------------------
+LENGTHS_DEEP = (1.0, 1e-3, 1e3, 1e-6, 1e6, 41.1)
+ANGLES_DEEP = (0.0, 1e-12, 1e-9, 1e-6, 1e-3, 0.1, 0.7, math.pi / 2, 2.5, math.pi - 1e-3, math.pi - 1e-6, math.pi - 1e-9, math.pi - 1e-12, math.pi)
+LAMBDAS_A_DEEP = (1.8, 0.01, 100.0, 0.1, 1.0, 10.0)
+LAM_FACTOR = {'angstrom': 1.0, 'nm': 0.1, 'm': 1e-10}
+INT_LAMBDAS = {'angstrom': (1, 2, 10, 100), 'nm': (1, 10), 'm': ()}
+# 18 shared directions + nearly-axis, nearly-diagonal and integer-valued ones
+DIRS_DEEP = [*gc.DIRECTIONS, (1.0, 1e-8, 0.0), (1e-3, 1.0, -1e-3), (1.0, 1.0, 1e-12), (-1.0, 2.0, 2.0), (0.0, 3.0, 4.0), (2.0, -3.0, 6.0),
+             (0.123, -0.456, 0.789), (-1e-5, -1e-5, -1.0)]
+INT_BEAMS = [(0, 0, 1), (0, 0, -1), (1, 0, 0), (0, -2, 0), (1, 2, 2), (-1, 2, 2), (0, 3, 4), (2, -3, 6), (1, 1, 1), (-1, -1, -1), (3, 0, -4), (1000000, 1, 0), (7, -11, 13)]
 
 
 def _b_matrices():
@@ -79,16 +101,41 @@ def _b_matrices():
     # perfectly conditioned but with a determinant far from 1 (large cell: det 1e-9; tiny cell: det 1e6)
     out.append(('cubic1000', np.eye(3) / 1000.0))
     out.append(('cubic0.01', np.eye(3) * 100.0))
+    # --- deep tier only (quick uses the first N_B_QUICK entries) ---
+    for s in (1.0, 10.0, 0.3):
+        out.append((f'cubic x{s}', busing_levy(4 * s, 4 * s, 4 * s, 90, 90, 90)))
+        out.append((f'tetragonal x{s}', busing_levy(4 * s, 4 * s, 6 * s, 90, 90, 90)))
+        out.append((f'orthorhombic x{s}', busing_levy(4 * s, 5 * s, 6 * s, 90, 90, 90)))
+        out.append((f'hexagonal x{s}', busing_levy(4 * s, 4 * s, 6 * s, 90, 90, 120)))
+        out.append((f'trigonal x{s}', busing_levy(5 * s, 5 * s, 5 * s, 70, 70, 70)))
+        out.append((f'monoclinic x{s}', busing_levy(4 * s, 5 * s, 6 * s, 90, 105, 90)))
+        out.append((f'triclinic x{s}', busing_levy(4 * s, 5 * s, 6 * s, 80, 95, 105)))
+    out.append(('cond1e6 b', np.diag([1e3, 1.0, 1e-3])))
+    out.append(('cond1e6 c', np.diag([1e-3, 1e3, 1.0])))
+    out.append(('cond1e6 two-sided', gc.GENERIC[1] @ np.diag([1.0, 1e-3, 1e3]) @ gc.GENERIC[2].T))
+    out.append(('shear cond1e6', np.array([[1.0, 1e3, 0.0], [0.0, 1.0, 0.0], [0.0, 0.0, 1.0]])))
     return out
 
 
 B_MATS = _b_matrices()
+N_B_QUICK = 7
 TINY_ROTVEC = (1e-9, 0.0, 0.0)
-# rotations: index 0..23 cube, 24..26 generic, 27 tiny
+# rotations: index 0..23 cube, 24..26 generic, 27 tiny; 28.. deep tier only
 N_ROT = 28
+EXTRA_ROTVECS = [(2.5, -1.7, 0.6), (0.01, 0.02, -0.005), (0.0, 0.0, math.pi - 1e-9), (1e-5, -2e-5, 3e-5), (-0.9, 0.9, 0.9), (3.0, 0.2, 0.1)]
+N_ROT_DEEP = N_ROT + len(EXTRA_ROTVECS)
+U_SUBSET = (0, 5, 13, 24, 29, 30)
 Q_SET = [
     (1.0, 0.0, 0.0), (0.0, -1.0, 0.0), (0.0, 0.0, 1.0), (1.0, 2.0, -0.5), (-3.0, 0.1, 0.7), (1e-3, 1e-3, 1e-3),
     (30.0, -1.0, 2.0), (0.0, 0.0, 0.0), (1e-9, 0.0, 0.0), (2 * math.pi / 5, 0.0, 0.0), (1.0, 1.0, 0.0), (-0.3, 0.2, 600.0),
+]
+Q_SET_DEEP = [
+    *Q_SET,
+    (1e-12, 0.0, 0.0), (0.0, 1e6, 0.0), (0.0, 0.0, -1e-6), (1e6, -1e6, 1e6), (1e-12, 2e-12, -3e-12), (1e-12, 1.0, 1e6), (1e6, 1e-12, 1.0),
+    (0.0, 5.0, 0.0), (0.0, 0.0, -7.0), (-2.0, 0.0, 0.0), (1.0, 1.0, 1.0), (-1.0, 1.0, -1.0), (0.0, 1.0, -1.0), (1.0, 0.0, 1.0),
+    (0.1234, -5.678, 9.1011), (-12.5, 7.25, 0.375), (2 * math.pi, 2 * math.pi, 0.0), (math.pi / 4, -math.e, math.sqrt(2.0)), (123.456, 0.00789, -45.6),
+    (3e-4, -7e-4, 2e-4), (5e3, 2e3, -9e3), (1.0, 1e-8, -1e-8), (-1e-8, 1e-8, 1.0), (0.577, 0.577, 0.577), (1e3, 1e3, 1e-3), (-1e-3, 1e3, 1e3),
+    (17.0, -23.0, 31.0), (1e-6, 1e-6, 1e-6),
 ]
 
 
@@ -97,7 +144,9 @@ def rot_matrix(idx) -> np.ndarray:
         return np.array(geom.cube_matrix(gc.CUBE[idx]))
     if idx < 27:
         return gc.GENERIC[idx - 24]
-    return gc.rotvec_matrix(TINY_ROTVEC)
+    if idx == 27:
+        return gc.rotvec_matrix(TINY_ROTVEC)
+    return gc.rotvec_matrix(EXTRA_ROTVECS[idx - 28])
 
 
 def rot_variable(idx, rep):
@@ -106,7 +155,7 @@ def rot_variable(idx, rep):
         return sc.spatial.linear_transform(value=rot_matrix(idx))
     if idx < 24:
         return sc.spatial.rotations_from_rotvecs(_cube_rotvec(idx))
-    rv = gc.GENERIC_ROTVECS[idx - 24] if idx < 27 else TINY_ROTVEC
+    rv = gc.GENERIC_ROTVECS[idx - 24] if idx < 27 else (TINY_ROTVEC if idx == 27 else EXTRA_ROTVECS[idx - 28])
     return sc.spatial.rotations_from_rotvecs(sc.vector(list(rv), unit='rad'))
 
 
@@ -132,20 +181,32 @@ def cases(tier):
                     out.append({'kind': 'qvec', 'd': di, 'n1': n1, 'n2': n2, 'lu': 'angstrom' if (di + len(out)) % 2 == 0 else 'nm', 'perp': 0})
         for r in range(N_ROT):
             for u in (0, 5, 13, 24, 25, 26):
-                for b in range(len(B_MATS)):
+                for b in range(N_B_QUICK):
                     out.append({'kind': 'hkl', 'R': r, 'rep': 'quat' if (r + u + b) % 3 else 'matrix', 'U': u, 'B': b})
         return out
     for perp in (0, 1):
-        for lu in ('angstrom', 'nm'):
-            for di in range(len(gc.DIRECTIONS)):
-                for n1 in LENGTHS:
-                    for n2 in LENGTHS:
-                        out.append({'kind': 'qvec', 'd': di, 'n1': n1, 'n2': n2, 'lu': lu, 'perp': perp})
+        for lu in ('angstrom', 'nm', 'm'):
+            for di in range(len(DIRS_DEEP)):
+                for n1 in LENGTHS_DEEP:
+                    for n2 in LENGTHS_DEEP:
+                        if abs(math.log10(n1 / n2)) > 6.5:
+                            continue
+                        out.append({'kind': 'qvec', 'deep': True, 'd': di, 'n1': n1, 'n2': n2, 'lu': lu, 'perp': perp})
+    for i in range(len(INT_BEAMS)):
+        out.append({'kind': 'qint', 'b1': i})
     for rep in ('quat', 'matrix'):
-        for r in range(N_ROT):
-            for u in range(N_ROT):
+        for r in range(N_ROT_DEEP):
+            for u in range(N_ROT_DEEP):
                 for b in range(len(B_MATS)):
-                    out.append({'kind': 'hkl', 'R': r, 'rep': rep, 'U': u, 'B': b})
+                    out.append({'kind': 'hkl', 'deep': True, 'R': r, 'rep': rep, 'U': u, 'B': b, 'bu': '1/angstrom', 'ub': 'kernel'})
+    for ubsrc in ('kernel', 'direct'):
+        for rep in ('quat', 'matrix'):
+            for r in range(N_ROT_DEEP):
+                for u in U_SUBSET:
+                    for b in range(len(B_MATS)):
+                        # B in 1/nm for every kernel-route case; alternating units for the directly given ub_matrix
+                        bu = '1/nm' if ubsrc == 'kernel' or (r + u + b) % 2 else '1/angstrom'
+                        out.append({'kind': 'hkl', 'deep': True, 'R': r, 'rep': rep, 'U': u, 'B': b, 'bu': bu, 'ub': ubsrc})
     return out
 
 
@@ -175,6 +236,8 @@ def run_case(case, rec):
     try:
         if case['kind'] == 'qvec':
             _run_qvec(case, rec)
+        elif case['kind'] == 'qint':
+            _run_qint(case, rec)
         else:
             _run_hkl(case, rec)
     finally:
@@ -182,11 +245,16 @@ def run_case(case, rec):
 
 
 def _run_qvec(case, rec):
-    d = gc.DIRECTIONS[case['d']]
+    deep = bool(case.get('deep'))
+    ANGLES = ANGLES_DEEP if deep else ANGLES_QUICK  # noqa: N806 - shadows the module constant on purpose
+    d = (DIRS_DEEP if deep else gc.DIRECTIONS)[case['d']]
     p = gc.perpendicular(d, case['perp'])
     n1, n2, lu = case['n1'], case['n2'], case['lu']
     rec.cls('unit_' + lu)
-    lams = [x if lu == 'angstrom' else x / 10.0 for x in LAMBDAS_A]
+    if deep:
+        lams = [x * LAM_FACTOR[lu] for x in LAMBDAS_A_DEEP]
+    else:
+        lams = [x if lu == 'angstrom' else x / 10.0 for x in LAMBDAS_A]
     qunit = sc.Unit('1/' + lu)
     b1 = tuple(n1 * x for x in gc.unit_dir(d))
     b2s = [gc.beam_at_angle(d, p, a, n2) for a in ANGLES]
@@ -247,12 +315,19 @@ def _run_qvec(case, rec):
         for key, g in tab.items():
             ia, il = key
             k = 2 * math.pi / lams[il]
+            if key in got0 and g == got0[key]:
+                # bitwise the 0-d result, which has been judged against the reference already: same verdict
+                rec.evals += 1
+                rec.validated += 1
+                rec.observe(g)
+                rec.cls('array_equals_scalar_bitwise')
+                continue
             _judge_q(rec, g, refs[key], k, what, angle=ANGLES[ia], lam=lams[il])
             if key in got0:
-                rec.cls('array_equals_scalar_bitwise' if g == got0[key] else 'array_differs_from_scalar')  # informative only
+                rec.cls('array_differs_from_scalar')  # informative only
 
     # wavelength array x 0-d beams
-    for ia in (0, 3, 8):
+    for ia in (0, 3, na - 1):
         comps = _q_call(lam_arr, v1, gc.vec(b2s[ia], 'mm'))
         rec.transitions += 1
         rec.cls('wavelength_array')
@@ -273,6 +348,9 @@ def _run_qvec(case, rec):
     rec.transitions += 1
     if not (np.array_equal(qv.fields.x.values, comps[0].values) and np.array_equal(qv.fields.y.values, comps[1].values) and np.array_equal(qv.fields.z.values, comps[2].values)):
         rec.viol(SITE_QV, 'lossy_reassembly', '2-d Q_vec differs from its elements')
+
+    if deep:
+        _qvec_deep_extras(rec, lu, lams, b1, b2s, refs, ANGLES)
 
     # independence of the beam lengths, covariance under rotations (lambda = first wavelength) ----------
     lam = lams[0]
@@ -317,20 +395,114 @@ def _run_qvec(case, rec):
                 rec.viol(SITE_Q, 'not_covariant', f'rotation #{j}: Q(R b1, R b2)={g} but R Q(b1, b2)={list(map(float, expect))}', rotation=j, **sub)
 
 
+def _qvec_deep_extras(rec, lu, lams, b1, b2s, refs, angles):
+    """Thorough tier: int64 wavelengths, per-pixel incident beam, both beams as arrays (same dim / outer product)."""
+    na = len(b2s)
+    v1 = gc.vec(b1, 'm')
+    b2_arr = gc.vecs(b2s, 'mm', dim='pixel')
+    # integer wavelengths (dtype int64), 0-d and array, against three angles
+    ints = INT_LAMBDAS[lu]
+    if ints:
+        arr = sc.array(dims=['wavelength'], values=list(ints), unit=lu, dtype='int64')
+        comps = _q_call(arr, v1, b2_arr)
+        rec.transitions += 1
+        rec.cls('wavelength_int64')
+        cv = [c.transpose(['pixel', 'wavelength']).values for c in comps]
+        for il, li in enumerate(ints):
+            k = 2 * math.pi / li
+            for ia in (3, 7, na - 2):
+                rec.states += 1
+                want = qvec.q_vec(float(li), b1, b2s[ia])
+                _judge_q(rec, tuple(float(c[ia][il]) for c in cv), want, k, 'int64 wavelength array', angle=angles[ia], lam=li, dtype='int64')
+            c0 = _q_call(sc.scalar(li, unit=lu, dtype='int64'), v1, gc.vec(b2s[6], 'mm'))
+            rec.transitions += 1
+            _judge_q(rec, tuple(float(c.value) for c in c0), qvec.q_vec(float(li), b1, b2s[6]), k, 'int64 wavelength 0-d', angle=angles[6], lam=li, dtype='int64')
+    lam = lams[0]
+    k = 2 * math.pi / lam
+    lam_s = sc.scalar(lam, unit=lu)
+    # per-pixel incident beam, 0-d scattered beam (roles of the two beams exchanged)
+    comps = _q_call(lam_s, b2_arr, v1)
+    rec.transitions += 1
+    rec.cls('incident_array')
+    for ia in range(na):
+        rec.states += 1
+        w = refs[(ia, 0)]
+        _judge_q(rec, tuple(float(c.values[ia]) for c in comps), [-w[0], -w[1], -w[2]], k, 'per-pixel incident beam', angle=angles[ia], lam=lam)
+    # both beams arrays over the same dim: (b2s[k], b2s[na-1-k])
+    rev = list(reversed(b2s))
+    comps = _q_call(lam_s, b2_arr, gc.vecs(rev, 'm', dim='pixel'))
+    rec.transitions += 1
+    rec.cls('both_beams_same_dim')
+    for ia in range(na):
+        rec.states += 1
+        _judge_q(rec, tuple(float(c.values[ia]) for c in comps), qvec.q_vec(lam, b2s[ia], rev[ia]), k, 'both beams per-pixel', pixel=ia, lam=lam)
+    # both beams arrays over different dims: outer product (source, pixel), wavelength array on a third dim
+    srcs = [b1, b2s[4], b2s[na - 3]]
+    lam2 = sc.array(dims=['wavelength'], values=[lams[0], lams[1]], unit=lu)
+    comps = _q_call(lam2, gc.vecs(srcs, 'm', dim='source'), b2_arr)
+    rec.transitions += 1
+    rec.cls('both_beams_outer')
+    if set(comps[0].dims) != {'source', 'pixel', 'wavelength'}:
+        rec.viol(SITE_Q, 'wrong_dims', f'outer product of incident (source) x scattered (pixel) x wavelength: dims {comps[0].dims}')
+        return
+    cv = [c.transpose(['source', 'pixel', 'wavelength']).values for c in comps]
+    for isrc, src in enumerate(srcs):
+        for ia in range(na):
+            w0 = refs[(ia, 0)] if isrc == 0 else qvec.q_vec(lams[0], src, b2s[ia])
+            for il in (0, 1):
+                rec.states += 1
+                w = w0 if il == 0 else (refs[(ia, 1)] if isrc == 0 else [x * hp.mpf(lams[0]) / hp.mpf(lams[1]) for x in w0])
+                _judge_q(rec, tuple(float(c[isrc][ia][il]) for c in cv), w, 2 * math.pi / lams[il], 'outer product of beams', source=isrc, pixel=ia, lam=lams[il])
+
+
+def _run_qint(case, rec):
+    """Integer-valued beams handed over as Python ints, every ordered pair, float and int64 wavelengths."""
+    b1 = INT_BEAMS[case['b1']]
+    v1 = sc.vector(list(b1), unit='m')
+    if v1.dtype != sc.DType.vector3:
+        rec.viol(SITE_Q, 'int_vector_dtype', f'sc.vector of ints has dtype {v1.dtype}')
+        return
+    lam_f = [1.8, 0.01, 100.0, 0.5, 25.0]
+    lam_i = [1, 2, 10, 100]
+    for b2 in INT_BEAMS:
+        v2 = sc.vector(list(b2), unit='m')
+        for lam, dtype in [(x, 'float64') for x in lam_f] + [(x, 'int64') for x in lam_i]:
+            rec.states += 1
+            rec.cls('int_valued_beams')
+            want = qvec.q_vec(float(lam), [float(x) for x in b1], [float(x) for x in b2])
+            if hp.norm(want) != 0:
+                rec.nontrivial += 1
+            comps = _q_call(sc.scalar(lam, unit='angstrom', dtype=dtype), v1, v2)
+            rec.transitions += 1
+            _judge_q(rec, tuple(float(c.value) for c in comps), want, 2 * math.pi / lam, 'integer-valued beams', b1=list(b1), b2=list(b2), lam=lam, dtype=dtype)
+    arr2 = sc.vectors(dims=['pixel'], values=np.asarray(INT_BEAMS), unit='m')
+    comps = _q_call(sc.array(dims=['wavelength'], values=lam_i, unit='angstrom', dtype='int64'), v1, arr2)
+    rec.transitions += 1
+    cv = [c.transpose(['pixel', 'wavelength']).values for c in comps]
+    for ib, b2 in enumerate(INT_BEAMS):
+        for il, lam in enumerate(lam_i):
+            _judge_q(rec, tuple(float(c[ib][il]) for c in cv), qvec.q_vec(float(lam), [float(x) for x in b1], [float(x) for x in b2]), 2 * math.pi / lam,
+                     'integer-valued beam array', b1=list(b1), b2=list(b2), lam=lam, dtype='int64')
+
+
 def _run_hkl(case, rec):
     ri, ui, bi, rep = case['R'], case['U'], case['B'], case['rep']
     bname, bmat = B_MATS[bi]
     rec.cls('R_quaternion' if rep == 'quat' else 'R_matrix')
     R = rot_variable(ri, rep)
+    deep = bool(case.get('deep'))
+    bu = case.get('bu', '1/angstrom')
+    q_set = Q_SET_DEEP if deep else Q_SET
+    rec.cls('b_unit_' + bu)
     U = sc.spatial.linear_transform(value=rot_matrix(ui))
-    B = sc.spatial.linear_transform(value=bmat, unit='1/angstrom')
+    B = sc.spatial.linear_transform(value=bmat, unit=bu)
     # UB = U*B
     ub = tof.ub_matrix_from_u_and_b(u_matrix=U, b_matrix=B)
     rec.transitions += 1
     rec.cls('ub_judged')
     rec.evals += 1
     rec.validated += 1
-    if ub.unit != sc.Unit('1/angstrom'):
+    if ub.unit != sc.Unit(bu):
         rec.viol(SITE_UB, 'wrong_unit', f'UB unit {ub.unit}')
     um, bm = U.value, B.value
     want_ub = qvec.ub(um, bm)
@@ -344,10 +516,15 @@ def _run_hkl(case, rec):
 
     judge_ub(ub.value, 'kernel')
     rec.observe(ub.value.tolist())
+    if case.get('ub') == 'direct':
+        # ub_matrix handed over by the user (here: the numpy product), not computed by the kernel
+        ub = sc.spatial.linear_transform(value=rot_matrix(ui) @ bmat, unit=bu)
+        rec.cls('ub_direct')
     # what R is, as handed over
     rmat = geom.quat_to_matrix(R.value) if rep == 'quat' else geom.mat(R.value)
     ubm = geom.mat(ub.value)
-    a = np.array([[float(x) for x in row] for row in geom.matmul(rmat, ubm)])
+    a_mp = geom.matmul(rmat, ubm)
+    a = np.array([[float(x) for x in row] for row in a_mp])
     cond = float(np.linalg.cond(a))
     if cond > 1e5:
         rec.cls('cond_gt_1e5')
@@ -366,14 +543,14 @@ def _run_hkl(case, rec):
         if not all(math.isfinite(x) for x in hkl):
             rec.viol(SITE_HKL, 'not_finite', f'{what}: hkl={list(hkl)} for Q={list(q)}', Q=list(q), cond=cond)
             return
-        res, qn = qvec.hkl_residual(rmat, ubm, hkl, q)
+        res, qn = qvec.hkl_residual_a(a_mp, hkl, q)
         if res > tol_rel * qn:
             rec.viol(SITE_HKL, 'residual', f'{what}: |2pi R UB hkl - Q| = {float(res):.3e} > 64 eps cond |Q| = {float(tol_rel * qn):.3e} '
                      f'(hkl={list(hkl)}, Q={list(q)}, cond={cond:.3g})', Q=list(q), cond=cond)
 
     got0 = []
-    for q in Q_SET:
-        Q = sc.vector(list(q), unit='1/angstrom')
+    for q in q_set:
+        Q = sc.vector(list(q), unit=bu)
         h = tof.hkl_vec_from_Q_vec(Q_vec=Q, ub_matrix=ub, sample_rotation=R)
         rec.transitions += 1
         if h.unit != sc.units.one:
@@ -389,14 +566,23 @@ def _run_hkl(case, rec):
         if tuple(float(x) for x in again.value) != hv:
             rec.viol(SITE_HE, 'lossy_split', 'reassembled hkl differs')
     # array of Q
-    Qa = gc.vecs(Q_SET, '1/angstrom', dim='Q')
+    Qa = gc.vecs(q_set, bu, dim='Q')
     ha = tof.hkl_vec_from_Q_vec(Q_vec=Qa, ub_matrix=ub, sample_rotation=R)
     rec.transitions += 1
     rec.cls('hkl_array')
-    for j, q in enumerate(Q_SET):
+    for j, q in enumerate(q_set):
         hv = tuple(float(x) for x in ha.values[j])
-        judge(hv, q, 'array')
-        rec.cls('array_equals_scalar_bitwise' if hv == got0[j] else 'array_differs_from_scalar')  # informative only
+        if hv == got0[j]:
+            # bitwise the 0-d result judged above: same verdict, no second 50-digit evaluation
+            rec.evals += 1
+            rec.validated += 1
+            rec.states += 1
+            rec.observe(hv)
+            rec.cls('hkl_judged')
+            rec.cls('array_equals_scalar_bitwise')
+        else:
+            judge(hv, q, 'array')
+            rec.cls('array_differs_from_scalar')  # informative only
     # array of sample rotations (one per goniometer setting), 2 and 3 of them, against a 0-d Q
     nrot = 28  # 24 cube + 3 generic + 1 tiny
     for nset in (2, 3):
@@ -406,7 +592,7 @@ def _run_hkl(case, rec):
         rmats = [geom.quat_to_matrix(r.value) if rep == 'quat' else geom.mat(r.value) for r in Rs]
         q = Q_SET[3 % len(Q_SET)]
         rec.transitions += 1
-        hs = tof.hkl_vec_from_Q_vec(Q_vec=sc.vector(list(q), unit='1/angstrom'), ub_matrix=ub, sample_rotation=Ra)
+        hs = tof.hkl_vec_from_Q_vec(Q_vec=sc.vector(list(q), unit=bu), ub_matrix=ub, sample_rotation=Ra)
         rec.cls('R_array')
         if hs.dims != ('setting',) or hs.shape != (nset,):
             rec.viol(SITE_HKL, 'wrong_dims', f'array of {nset} sample rotations: result dims {hs.dims} shape {hs.shape}', nset=nset)
@@ -420,18 +606,23 @@ def _run_hkl(case, rec):
             res, qn = qvec.hkl_residual(rmats[k], ubm, hv, q)
             if not all(math.isfinite(x) for x in hv) or res > 64 * EPS * cond_k * qn:
                 rec.viol(SITE_HKL, 'residual_rotation_array', f'{nset} sample rotations, element {k}: |2pi R UB hkl - Q| = {float(res):.3e} (hkl={list(hv)}, Q={list(q)})', nset=nset, element=k)
+    if deep:
+        _hkl_deep_arrays(rec, case, ub, B, bmat, bu)
     parts = tof.hkl_elements_from_hkl_vec(hkl_vec=ha)
     if not (np.array_equal(parts['h'].values, ha.fields.x.values) and np.array_equal(parts['k'].values, ha.values[:, 1]) and np.array_equal(parts['l'].values, ha.values[:, 2])):
         rec.viol(SITE_HE, 'lossy_split', 'array h,k,l differ from the vector components')
 
     # the same through the coordinate graph: wavelength + beams -> Q_vec -> hkl_vec -> h, k, l
-    lam = [1.8, 0.5]
+    if case.get('ub') == 'direct':
+        return  # the graph computes ub_matrix itself; covered by the 'kernel' cases
+    lam = [1.8, 0.5] if bu == '1/angstrom' else [0.18, 0.05]
+    lam_unit = bu[2:]
     b1 = (0.0, 0.0, 10.0)
     b2s = [gc.beam_at_angle((0.0, 0.0, 1.0), gc.unit_dir((1.0, 0.3, 0.0)), a, 2.0) for a in (0.3, 1.2, 2.9)]
     da = sc.DataArray(
         sc.ones(dims=['pixel', 'wavelength'], shape=[3, 2]),
         coords={
-            'wavelength': sc.array(dims=['wavelength'], values=lam, unit='angstrom'),
+            'wavelength': sc.array(dims=['wavelength'], values=lam, unit=lam_unit),
             'incident_beam': gc.vec(b1, 'm'), 'scattered_beam': gc.vecs(b2s, 'm', dim='pixel'),
             'u_matrix': U, 'b_matrix': B, 'sample_rotation': R,
         },
@@ -456,6 +647,79 @@ def _run_hkl(case, rec):
                 rec.viol(SITE_HE, 'lossy_split', f'graph route: h,k,l differ from hkl_vec {hv}')
 
 
+def _hkl_deep_arrays(rec, case, ub, B, bmat, bu):
+    """Thorough tier: arrays of 5 sample rotations / 5 U matrices / Q vectors, element-wise and as outer product."""
+    ri, ui, rep = case['R'], case['U'], case['rep']
+    n = 5
+    ridx = [(ri + 7 * k) % N_ROT_DEEP for k in range(n)]
+    uidx = [(ui + 11 * k) % N_ROT_DEEP for k in range(n)]
+    Rs = [rot_variable(i, rep) for i in ridx]
+    Ra = sc.concat(Rs, 'setting')
+    rmats = [geom.quat_to_matrix(r.value) if rep == 'quat' else geom.mat(r.value) for r in Rs]
+    # U as an array -> UB as an array
+    Ua = sc.concat([sc.spatial.linear_transform(value=rot_matrix(i)) for i in uidx], 'setting')
+    uba = tof.ub_matrix_from_u_and_b(u_matrix=Ua, b_matrix=B)
+    rec.transitions += 1
+    rec.cls('U_array')
+    if uba.dims != ('setting',) or uba.unit != sc.Unit(bu):
+        rec.viol(SITE_UB, 'wrong_dims', f'array of U: UB dims {uba.dims}, unit {uba.unit}')
+        return
+    ubms = []
+    for k, i in enumerate(uidx):
+        um = rot_matrix(i)
+        want = qvec.ub(um, bmat)
+        val = uba.values[k]
+        rec.evals += 1
+        rec.validated += 1
+        for a in range(3):
+            for b in range(3):
+                bound = 4 * EPS * sum(abs(um[a][kk]) * abs(bmat[kk][b]) for kk in range(3))
+                if abs(hp.mpf(float(val[a][b])) - want[a][b]) > bound:
+                    rec.viol(SITE_UB, 'not_u_times_b', f'array of U, element {k}: UB[{a}][{b}]={val[a][b]!r}, U*B={float(want[a][b])!r}', element=k)
+        ubms.append(geom.mat(val))
+    ub0 = geom.mat(ub.value)
+
+    def product(rm, um):
+        a_mp = geom.matmul(rm, um)
+        return a_mp, float(np.linalg.cond(np.array([[float(x) for x in row] for row in a_mp])))
+
+    def judge(hv, prod, q, what, **sub):
+        rec.evals += 1
+        rec.validated += 1
+        rec.states += 1
+        rec.cls('hkl_judged')
+        a_mp, cond_k = prod
+        res, qn = qvec.hkl_residual_a(a_mp, hv, q)
+        if not all(math.isfinite(x) for x in hv) or res > 64 * EPS * cond_k * qn:
+            rec.viol(SITE_HKL, 'residual_arrays', f'{what}: |2pi R UB hkl - Q| = {float(res):.3e} > 64 eps cond |Q| = {float(64 * EPS * cond_k * qn):.3e} '
+                     f'(hkl={list(hv)}, Q={list(q)}, cond={cond_k:.3g})', **sub)
+
+    qs = [Q_SET_DEEP[(3 + 9 * k + ri) % len(Q_SET_DEEP)] for k in range(n)]
+    qs = [q if any(q) else (1.0, -2.0, 0.5) for q in qs]
+    # element-wise: R[k], UB[k], Q[k]
+    hs = tof.hkl_vec_from_Q_vec(Q_vec=gc.vecs(qs, bu, dim='setting'), ub_matrix=uba, sample_rotation=Ra)
+    rec.transitions += 1
+    rec.cls('R_U_Q_elementwise')
+    if hs.dims != ('setting',):
+        rec.viol(SITE_HKL, 'wrong_dims', f'element-wise arrays: result dims {hs.dims}')
+    else:
+        for k in range(n):
+            judge(tuple(float(x) for x in hs.values[k]), product(rmats[k], ubms[k]), qs[k], 'element-wise R, UB, Q arrays', element=k)
+    # outer product: R over 'setting', Q over 'Q', one UB
+    q4 = qs[:4]
+    ho = tof.hkl_vec_from_Q_vec(Q_vec=gc.vecs(q4, bu, dim='Q'), ub_matrix=ub, sample_rotation=Ra)
+    rec.transitions += 1
+    rec.cls('R_Q_outer')
+    if set(ho.dims) != {'setting', 'Q'}:
+        rec.viol(SITE_HKL, 'wrong_dims', f'R (setting) x Q (Q): result dims {ho.dims}')
+    else:
+        vals = ho.transpose(['setting', 'Q']).values
+        for k in range(n):
+            prod = product(rmats[k], ub0)
+            for j in range(4):
+                judge(tuple(float(x) for x in vals[k][j]), prod, q4[j], 'outer product of R and Q arrays', element=k, q_index=j)
+
+
 # ---------------------------------------------------------------------------------------
 # layout / reuse exploration shared by the kernel properties (props/layouts.py): every combination of operand layouts
 # (0-d, 1-d over either of two dims, 2-d, 2-d transposed) must equal the element-wise 0-d calls, also after every operand
@@ -478,3 +742,10 @@ def run_case(case, rec):
         _layouts.run_layout_case(case, rec)
     else:
         _run_case_main(case, rec)
+
+
+_DEEP_CLASSES = [
+    'unit_m', 'wavelength_int64', 'incident_array', 'both_beams_same_dim', 'both_beams_outer', 'int_valued_beams', 'b_unit_1/nm',
+    'b_unit_1/angstrom', 'ub_direct', 'U_array', 'R_U_Q_elementwise', 'R_Q_outer',
+]
+REQUIRED_CLASSES = {'quick': list(REQUIRED_CLASSES), 'thorough': [*REQUIRED_CLASSES, *_DEEP_CLASSES]}
